@@ -105,6 +105,30 @@ pub fn check_ownership(t: &Torrent, o: &Outcome, stats: &mut HashMap<&'static st
     None
 }
 
+
+/// The advertising half of `check_ownership` on its own (C11): a Have / Bitfield bit for a piece
+/// that has no verified file on disk at that moment.
+pub fn check_claims_on_wire(t: &Torrent, o: &Outcome, stats: &mut HashMap<&'static str, u64>) -> Option<Finding> {
+    for (k, e) in o.events.iter().enumerate() {
+        if let EvKind::Send { msg, .. } = &e.kind {
+            let need: Vec<usize> = match msg {
+                Msg::Have(i) => vec![*i as usize],
+                Msg::Bitfield(b) => bitfield_bits(b, t.n()).iter().enumerate().filter(|x| *x.1).map(|x| x.0).collect(),
+                _ => continue,
+            };
+            *stats.entry("announcements_checked_against_disk").or_default() += 1;
+            if let Some(d) = disk_after(&o.events, k) {
+                for i in need {
+                    if i < t.n() && !d.valid.contains(&i) {
+                        return Some(Finding { sig: format!("C11:announced-without-stored-piece:{}", msg.kind()), what: format!("{} for piece {} written to {} while no verified file for it is on disk", msg.kind(), i, e.addr), at_seq: e.seq });
+                    }
+                }
+            }
+        }
+    }
+    None
+}
+
 pub struct Scenario { pub cfg: SimCfg, pub desc: Value }
 
 pub fn gen_scenario(r: &mut Rng, seed: u64) -> Scenario {
@@ -441,8 +465,7 @@ pub fn run_c11(ctx: &Ctx) -> Report {
             continue;
         }
         let mut stats = HashMap::new();
-        let mut s2 = HashMap::new();
-        let f = check_advertising(&t, &o, &mut stats).or_else(|| check_ownership(&t, &o, &mut s2).filter(|f| f.sig.starts_with("C01:advertised")).map(|f| Finding { sig: f.sig.replace("C01:", "C11:"), what: f.what, at_seq: f.at_seq }));
+        let f = check_advertising(&t, &o, &mut stats).or_else(|| check_claims_on_wire(&t, &o, &mut stats));
         for (k2, v) in &stats { rep.count(k2, *v); }
         match f {
             None => { if k % 200 == 0 { rep.sample(json!({"scenario": desc, "observed": stats.iter().map(|(a, b)| (a.to_string(), *b)).collect::<HashMap<String, u64>>() })); } }
